@@ -4,8 +4,23 @@ From Coq Require Import ZifyBool.
 Local Open Scope Z_scope.
 Ltac Zify.zify_post_hook ::= Z.div_mod_to_equations.
 
+Lemma wrap_spec x : wrap x = x mod M32.
+Proof.
+  unfold wrap, M32.
+  repeat match goal with
+         | |- context [if ?c then _ else _] => destruct c eqn:?; [lia|]
+         end.
+  reflexivity.
+Qed.
+Lemma wadd_spec a b : wadd a b = (a + b) mod M32.
+Proof. apply wrap_spec. Qed.
+Lemma wsub_spec a b : wsub a b = (a - b) mod M32.
+Proof. apply wrap_spec. Qed.
+
 Ltac u32_unfold :=
-  unfold mod_geq, mod_gt, mod_leq, mod_lt, mod_bounded, wadd, wsub, wrap, cmp_offset, u32, M32, H31 in *.
+  unfold mod_geq, mod_gt, mod_leq, mod_lt, mod_bounded in *;
+  rewrite ?wadd_spec, ?wsub_spec in *;
+  unfold cmp_offset, u32, M32, H31 in *.
 
 (* mod_lt is the mathematical circular order for pairs less than 2^31 apart *)
 Lemma mod_lt_spec a d : u32 a -> 0 < d < H31 ->
